@@ -127,6 +127,17 @@ def gen_flowir_package(rr, idx):
             content['global'][uvars[0]] = 'f%d-%s' % (f, uvars[0])
         vfiles.append(content)
     data_files = {'data/in%d.txt' % k: 'payload %d\n' % k for k in range(rr.choice([0, 2, 5]))}
+    # more top-level folders (their listing order is noise) and direct references into them
+    for folder in rr.sample(['bin', 'hooks', 'extra', 'aux-data', 'zeta'], rr.choice([0, 2, 4])):
+        for k in range(rr.choice([1, 3])):
+            data_files['%s/f%d.txt' % (folder, k)] = '%s %d\n' % (folder, k)
+    if data_files:
+        direct = sorted(f for f in data_files if f.startswith('data/'))
+        for c in doc['components']:
+            if direct and rr.random() < 0.4:
+                ref = '%s:%s' % (rr.choice(direct), rr.choice(['ref', 'copy']))
+                c.setdefault('references', []).append(ref)
+                c['command']['arguments'] += ' ' + (ref if ref.endswith(':ref') else '')
     return {'kind': 'flowir', 'name': 'pkg%d' % idx, 'doc': doc, 'variable_files': vfiles, 'files': data_files,
             'platform': rr.choice(platforms) if rr.random() < 0.5 else None}
 
